@@ -100,19 +100,22 @@ def check_pure(ctx, cs):
             def load(fn):
                 with open(fn) as f:
                     return [[[float(x) for x in q.split(",")] for q in line.strip().split(";")] for line in f if line.strip()]
-            for label, gin, gw in (("2xn", [xyzw, xyzw[::-1]], [Pw, Pw[::-1]]), ("nxn", [xyzw[i:] + xyzw[:i] for i in range(len(xyzw))], [Pw[i:] + Pw[:i] for i in range(len(Pw))])):
+            tiny_ = 2.0 ** -20
+            for label, gin, gw in (("2xn", [xyzw, xyzw[::-1]], [Pw, Pw[::-1]]), ("nxn", [xyzw[i:] + xyzw[:i] for i in range(len(xyzw))], [Pw[i:] + Pw[:i] for i in range(len(Pw))]),
+                                   ("2xn_small_unit", [[[c * tiny_ for c in q[:-1]] + [q[-1]] for q in row] for row in (xyzw, xyzw[::-1])],
+                                    [[[c * tiny_ for c in q[:-1]] + [q[-1]] for q in row] for row in (Pw, Pw[::-1])])):
                 t2 = tg + ["file", "grid=" + label, "square" if len(gin) == len(gin[0]) else "nonsquare"]
                 fi, fo, fb = (os.path.join(d, x + label) for x in ("in", "out", "back"))
                 try:
                     save(gin, fi)
                     compatibility.generate_ctrlptsw2d_file(fi, fo)
                     got = load(fo)
-                    if not close_seq(got, gw):
+                    if not close_seq(got, gw) or (label.endswith("small_unit") and not close_seq([[[c / tiny_ for c in q[:-1]] for q in row] for row in got], [[[c / tiny_ for c in q[:-1]] for q in row] for row in gw])):
                         ctx.violate("compatibility.generate_ctrlptsw2d_file", t2, small, {"rows": len(got), "expected_rows": len(gw), "row0": got[0] if got else got})
                         continue
                     compatibility.generate_ctrlpts2d_weights_file(fo, fb)
                     back = load(fb)
-                    if not close_seq(back, gin):
+                    if not close_seq(back, gin) or (label.endswith("small_unit") and not close_seq([[[c / tiny_ for c in q[:-1]] for q in row] for row in back], [[[c / tiny_ for c in q[:-1]] for q in row] for row in gin])):
                         ctx.violate("compatibility.generate_ctrlpts2d_weights_file", t2, small, {"rows": len(back), "row0": back[0] if back else back})
                 except Exception as e:
                     ctx.violate("compatibility.generate_ctrlptsw2d_file", t2 + ["raises"], small, {"exception": repr(e)[:200]})
